@@ -423,4 +423,12 @@ def rule_result_is_the_events_own(ctx: Ctx):
     c14.rule_flow(ctx, flow="C03.first", unwrap="C03.first")
 
 
-RULES = [rule_put, rule_fifo, rule_elect, rule_rtc, rule_first, rule_nonrtc, rule_guarded_pop, rule_depth, rule_release, rule_one_engine, rule_result_is_the_events_own]
+def rule_send_only_enqueues(ctx: Ctx):
+    """C03.put: `send()` decides nothing itself (no early raise, no early return): every event, known or not, is called and so
+    queued behind the transition in progress."""
+    from . import c13
+
+    c13.rule_send(ctx, rule="C03.put")
+
+
+RULES = [rule_put, rule_fifo, rule_elect, rule_rtc, rule_first, rule_nonrtc, rule_guarded_pop, rule_depth, rule_release, rule_one_engine, rule_result_is_the_events_own, rule_send_only_enqueues]
